@@ -2,9 +2,11 @@
 // linearizability clause (spec/LinPool.tla).
 //
 // A case gives the regime, max_idle and one operation sequence per actor:
-//   P put a new connection      G get (and hold what comes back)
-//   R put back what I hold      X Close(what I hold) through the pool
-//   C cleanup                   S shutdown
+//
+//	P put a new connection      G get (and hold what comes back)
+//	R put back what I hold      X Close(what I hold) through the pool
+//	C cleanup                   S shutdown
+//
 // Actors run in real parallel; every operation is recorded with invocation and
 // return instants from one atomic counter and with its result.  After all actors
 // are done the harness issues one more Shutdown and records which mock
